@@ -486,6 +486,41 @@ struct Config
             tables();
             return;
         }
+        if (op == "failat")
+        {
+            L.fail_countdown = std::stol(t[1]);
+            out << "ok\n";
+            return;
+        }
+        if (op == "failoff")
+        {
+            L.fail_countdown = -1;
+            out << "ok\n";
+            return;
+        }
+        // operations on vectors or elements that do not exist (e.g. because their construction threw) are skipped
+        {
+            bool missing = false;
+            const bool creates = op == "new";
+            for (std::size_t a = 1; a < t.size(); ++a)
+            {
+                if (t[a].size() == 2 && t[a][0] == 'v' && !creates)
+                {
+                    const bool is_target = (op == "copy" || op == "move") && a == 2;
+                    if (!is_target && !vec[vidx(t[a])].v) missing = true;
+                }
+                if (t[a].size() == 2 && t[a][0] == 'e')
+                {
+                    const bool is_target = ((op == "elem" || op == "elemref" || op == "elemmv") && a == 1) || ((op == "elemcopy" || op == "elemmove") && a == 2);
+                    if (!is_target && !elems[vidx(t[a])]) missing = true;
+                }
+            }
+            if (missing)
+            {
+                out << "skip-missing\n";
+                return;
+            }
+        }
         if (op == "new")
         {  // new vK cap bytes fixedlist allocid
             int k = vidx(t[1]);
